@@ -123,6 +123,46 @@ FIXED = [
 ]
 
 
+DEPTH_CFG = {'options': {'output.formatSkip': [], 'output.selfClosingStyle': 'xhtml'}}
+# depth checks on fixed abbreviations: (abbr, config, finding class or None)
+FIXED_DEPTH = [
+    ('div>p{a\x0bb}', DEPTH_CFG, None),
+    ('ul>li{x\x0cy}+li', DEPTH_CFG, None),
+    ('div>a[title="x\ny"]', DEPTH_CFG, None),
+    ('div>p{a\nb ${1} c}>x', DEPTH_CFG, 'C12:depth-multiline-field-text-with-children'),
+    ('section>p{${1}l1\nl2}>em', DEPTH_CFG, 'C12:depth-multiline-field-text-with-children'),
+]
+
+
+def field_text_with_children(abbr):
+    """Finding class: an element whose text has an explicit field and a line break and which has
+    children goes through push_snippet(), which has no inner formatting."""
+    i = 0
+    n = len(abbr)
+    while i < n:
+        if abbr[i] == '{' and (i == 0 or abbr[i - 1] != '$'):
+            depth = 0
+            j = i
+            while j < n:
+                if abbr[j] == '{':
+                    depth += 1
+                elif abbr[j] == '}':
+                    depth -= 1
+                    if depth == 0:
+                        break
+                j += 1
+            text = abbr[i + 1:j]
+            k = j + 1
+            m = re.match(r'(\*\d*)?', abbr[k:])
+            k += m.end()
+            if '${' in text and ('\n' in text or '\r' in text) and abbr[k:k + 1] == '>':
+                return True
+            i = j + 1
+        else:
+            i += 1
+    return False
+
+
 def load_corpus():
     out = []
     for p in sorted(glob.glob(os.path.join(CORPUS, '*.json'))):
@@ -176,6 +216,9 @@ def run(ctx):
         ctx.cover('C12:corpus')
     for abbr, ca, cb in FIXED:
         groups.append({'abbr': abbr, 'cfgs': {'a': ca, 'b': cb}, 'checks': [('cosmetic', 'a', 'b')]})
+    for abbr, cfg, cls in FIXED_DEPTH:
+        groups.append({'abbr': abbr, 'cfgs': {'a': cfg}, 'checks': [('depth', 'a', None)], 'class': cls})
+    n_fixed = len(groups)
     n = 700 if ctx.tier == 'quick' else 12000
     for _ in range(n):
         groups.append(make_group(rng))
@@ -200,12 +243,14 @@ def run(ctx):
                 ctx.cover('C12:syntax-' + syn)
                 if ra[1].count('<') >= 3:
                     ctx.nontrivial((abbr, canon_cfg(cfg_a), kind))
+            if bad and kind == 'depth' and gr.get('class') and field_text_with_children(abbr):
+                cls = gr['class']
             if bad:
                 key = cls or 'C12:%s|%s|%s|%s' % (kind, abbr, canon_cfg(cfg_a), canon_cfg(cfg_b) if cfg_b else '')
                 ctx.property_failure(key, 'C12 %s: expand(%r) under %s%s: %s' % (
                     kind, abbr, canon_cfg(cfg_a), (' vs ' + canon_cfg(cfg_b)) if cfg_b else '', bad),
                     {'component': 'C12', 'kind': kind, 'abbr': abbr, 'cfg_a': cfg_a, 'cfg_b': cfg_b, 'why': bad})
-    for gr in groups[len(FIXED) + 3:len(FIXED) + 7]:
+    for gr in groups[n_fixed + 3:n_fixed + 7]:
         r = impl[index[(groups.index(gr), 'a')]]
         ctx.sample({'abbr': gr['abbr'], 'config_a': gr['cfgs']['a'], 'config_b': gr['cfgs']['b'],
                     'output_a': r[1][:160] if r[0] == 'ok' else list(r)})
